@@ -52,15 +52,18 @@ def main(argv=None):
     args = ap.parse_args(argv)
     common.ensure_env()
     prop = args.prop.upper()
+    import_error = None
+    try:
+        common.bind()           # soupsieve first, then bs4: the reverse order is itself something C16 checks
+    except Exception as e:
+        import_error = repr(e)
     mod = importlib.import_module('vf.props.' + prop.lower())
 
     if args.replay:
         with open(args.replay) as f:
             rec = json.load(f)
-        try:
-            common.bind()
-        except Exception as e:  # the tree cannot even be imported
-            print(f'REPRODUCED property={prop} import failure: {e!r}')
+        if import_error:  # the tree cannot even be imported
+            print(f'REPRODUCED property={prop} import failure: {import_error}')
             return 1
         out = mod.replay(rec['case'])
         if out:
@@ -72,11 +75,6 @@ def main(argv=None):
     from . import evidence, findings
     seed = common.seed()
     t0 = time.time()
-    import_error = None
-    try:
-        common.bind()
-    except Exception as e:
-        import_error = repr(e)
     if import_error and not getattr(mod, 'SURVIVES_IMPORT_FAILURE', False):
         # The tree does not import: every property about its behaviour is violated in the plainest way.
         w = {'case': {'kind': 'import'}, 'sig': {'kind': 'import-failure'}, 'detail': import_error}
